@@ -40,9 +40,9 @@ Lemma can_ask_route cfg s ho :
 Proof.
   unfold can_ask, route. destruct ho as [h|]; [|reflexivity].
   destruct (cluster_of cfg h) as [c|]; [|reflexivity].
-  unfold ready. rewrite (existsb_ext' _ ep_ready).
-  - destruct (existsb ep_ready (eps s c)); reflexivity.
-  - intros [a b]. unfold ep_ready; simpl. apply Bool.andb_comm.
+  unfold ready. rewrite (existsb_ext' _ (fun e => ep_ready (snd e))).
+  - destruct (existsb (fun e => ep_ready (snd e)) (e_list (eps s) c)); reflexivity.
+  - intros [srv [a b]]. unfold ep_ready; simpl. apply Bool.andb_comm.
 Qed.
 
 Lemma route_inl cfg s ho h c :
@@ -338,7 +338,7 @@ Lemma step_ok cfg torc sorc s k o :
   exists k', check_step cfg torc sorc k o (snd (step cfg torc sorc s o)) = (k', all_ok)
              /\ inv cfg (fst (step cfg torc sorc s o)) k'.
 Proof.
-  intros [He [Ht Hs]]. destruct o as [ho tok now|ho a now|c i b|c i b|c|h tok|h a]; simpl.
+  intros [He [Ht Hs]]. destruct o as [ho tok now|ho a now|srv b|srv b|c|h tok|h a|c srv|c srv]; simpl.
   - destruct (request cfg (tkind cfg) torc s (ts s) ho (tkey tok) true now) as [[st' r] calls] eqn:E. simpl.
     destruct (request_ok cfg (tkind cfg) (tspec cfg) torc t_res_expected tresult_eqb_refl (t_neg cfg)
                 (t_ttl_ok cfg) (t_valid_le cfg) s _ _ _ _ _ _ _ _ _ Ht E) as [k' [Hk Hi]].
@@ -359,6 +359,8 @@ Proof.
     apply inv_evict. assumption.
   - eexists. split; [reflexivity|]. split; [|split]; simpl; [assumption|assumption|].
     apply inv_evict. assumption.
+  - eexists. split; [reflexivity|]. split; [|split]; simpl; [rewrite He; reflexivity|assumption|assumption].
+  - eexists. split; [reflexivity|]. split; [|split]; simpl; [rewrite He; reflexivity|assumption|assumption].
 Qed.
 
 Lemma stepx_ok cfg torc sorc s k o :
@@ -432,7 +434,7 @@ Theorem no_shared_entry cfg torc sorc s o h2 :
   forall k, kc (ts (fst (step cfg torc sorc s o))) h2 k = kc (ts s) h2 k /\
             kc (ss (fst (step cfg torc sorc s o))) h2 k = kc (ss s) h2 k.
 Proof.
-  intros Hn k. destruct o as [ho tok now|ho a now|c i b|c i b|c|h tok|h a]; simpl in *.
+  intros Hn k. destruct o as [ho tok now|ho a now|srv b|srv b|c|h tok|h a|c srv|c srv]; simpl in *.
   - destruct (request cfg (tkind cfg) torc s (ts s) ho (tkey tok) true now) as [[st' r] calls] eqn:E. simpl.
     split; [|reflexivity]. eapply request_other_host; eauto.
     intros ->. apply Hn. reflexivity.
@@ -450,6 +452,8 @@ Proof.
   - split; [reflexivity|]. unfold upd_cache.
     destruct (String.eqb h2 h) eqn:E; [|reflexivity].
     apply String.eqb_eq in E. subst. contradiction Hn. reflexivity.
+  - split; reflexivity.
+  - split; reflexivity.
 Qed.
 
 Definition out_calls (x : out) : list call :=
@@ -459,13 +463,19 @@ Definition op_host (o : op) : option host :=
 
 Theorem own_cluster cfg torc sorc s o cl :
   In cl (out_calls (snd (step cfg torc sorc s o))) ->
-  exists h, op_host o = Some h /\ cluster_of cfg h = Some (fst cl) /\ ready s (fst cl) = true /\ snd cl = true.
+  exists h, op_host o = Some h /\ cluster_of cfg h = Some (fst cl) /\ snd cl = true /\
+    exists srv st, In (srv, st) (e_list (eps s) (fst cl)) /\ ep_ready st = true.
 Proof.
-  destruct o as [ho tok now|ho a now|c i b|c i b|c|h tok|h a]; simpl; try contradiction.
-  - destruct (request cfg (tkind cfg) torc s (ts s) ho (tkey tok) true now) as [[st' r] calls] eqn:E. simpl.
-    eapply request_calls; eauto.
-  - destruct (request cfg (skind cfg) sorc s (ss s) ho (sar_key a) (should_cache a) now) as [[st' r] calls] eqn:E. simpl.
-    eapply request_calls; eauto.
+  intros Hin.
+  assert (H : exists h, op_host o = Some h /\ cluster_of cfg h = Some (fst cl) /\ ready s (fst cl) = true /\ snd cl = true).
+  { destruct o as [ho tok now|ho a now|srv b|srv b|c|h tok|h a|c srv|c srv]; simpl in *; try contradiction.
+    - destruct (request cfg (tkind cfg) torc s (ts s) ho (tkey tok) true now) as [[st' r] calls] eqn:E. simpl in Hin.
+      eapply request_calls; eauto.
+    - destruct (request cfg (skind cfg) sorc s (ss s) ho (sar_key a) (should_cache a) now) as [[st' r] calls] eqn:E. simpl in Hin.
+      eapply request_calls; eauto. }
+  destruct H as [h [H1 [H2 [H3 H4]]]]. exists h. repeat split; auto.
+  unfold ready in H3. apply existsb_exists in H3. destruct H3 as [[srv st] [Hi Hr]].
+  exists srv, st. split; assumption.
 Qed.
 
 (* a request never advances the review counter (= never consumes an answer) of a cluster it is not addressed to *)
@@ -474,7 +484,7 @@ Theorem other_clusters_not_asked cfg torc sorc s o c2 :
   kn (ts (fst (step cfg torc sorc s o))) c2 = kn (ts s) c2 /\
   kn (ss (fst (step cfg torc sorc s o))) c2 = kn (ss s) c2.
 Proof.
-  intros Hn. destruct o as [ho tok now|ho a now|c i b|c i b|c|h tok|h a]; simpl in *; try (split; reflexivity).
+  intros Hn. destruct o as [ho tok now|ho a now|srv b|srv b|c|h tok|h a|c srv|c srv]; simpl in *; try (split; reflexivity).
   - destruct (request cfg (tkind cfg) torc s (ts s) ho (tkey tok) true now) as [[st' r] calls] eqn:E. simpl.
     split; [|reflexivity]. eapply request_other_cluster; eauto.
   - destruct (request cfg (skind cfg) sorc s (ss s) ho (sar_key a) (should_cache a) now) as [[st' r] calls] eqn:E. simpl.
@@ -624,8 +634,8 @@ Theorem overlap_commutes cfg torc sorc s a b :
   snd ra = snd rba /\ snd rab = snd rb /\ state_eqv (fst rab) (fst rba).
 Proof.
   intros Ha Hb Hd.
-  destruct a as [ho1 tok1 now1|ho1 a1 now1| | | | |]; try discriminate;
-  destruct b as [ho2 tok2 now2|ho2 a2 now2| | | | |]; try discriminate; unfold op_cluster in Hd; simpl in Hd.
+  destruct a as [ho1 tok1 now1|ho1 a1 now1| | | | | | |]; try discriminate;
+  destruct b as [ho2 tok2 now2|ho2 a2 now2| | | | | | |]; try discriminate; unfold op_cluster in Hd; simpl in Hd.
   - (* token / token *)
     pose proof (request_commute cfg (tkind cfg) torc s (ts s) ho1 (tkey tok1) true now1 ho2 (tkey tok2) true now2 Hd) as H.
     simpl in H. simpl.
